@@ -174,7 +174,10 @@ fn check_pair(rng: &mut Rng, obj: Obj, sh: Sh, p: &[f32], t: &[f32], fam: &str, 
         }
     }
     // (3) clamp: exact, metamorphic
-    let (lo, hi) = match rng.range(0, 4) {
+    let (lo, hi) = match rng.range(0, 7) {
+        5 => (f32::NEG_INFINITY, rng.f32_in(-1.0, 1.0)),
+        6 => (rng.f32_in(-1.0, 1.0), f32::INFINITY),
+        7 => (f32::NEG_INFINITY, f32::INFINITY),
         0 => (-1.0f32, 1.0f32),
         1 => (-0.1, 0.1),
         2 => {
@@ -251,7 +254,7 @@ impl Monitor for C06 {
         vec![("pairs", tier.pick(420_000, 8_400_000)), ("grid", tier.pick(70_000, 700_000))]
     }
     fn rule(&self) -> &'static str {
-        "pairs: case = (objective, family, length 1..8, flat or 3-D factorisation); families for AE/MAE/MSE/RMSE: random (scales 1e-3..1e5), some-equal, ulp-differences, tiny-differences (1e-44..1e-10), large-magnitudes (1e8..1e15), boundary-grid; for CE/BCE/KL: random-interior, one-hot-target, boundary-grid {0,1,1e-6,1-1e-6,denormals,..}, equal-pairs, exact-zeros-and-ones, distributions. Every case: loss vs documented formula (running f32 error bound), loss finite, gradient vs documented formula (1e-5 relative), gradient shape == prediction shape, a clamp interval applied: loss unchanged and gradient == unclamped gradient limited to the interval bit-for-bit; interior cases of AE/MSE/BCE/KL additionally: gradient == dual-number derivative of the documented loss and ~ central difference of the library's own loss(). grid: full product of boundary values for vectors of length <= 3. Distinct = distinct (objective, family, shape, data hash)."
+        "pairs: case = (objective, family, length 1..8, flat or 3-D factorisation); families for AE/MAE/MSE/RMSE: random (scales 1e-3..1e5), some-equal, ulp-differences, tiny-differences (1e-44..1e-10), large-magnitudes (1e8..1e15), boundary-grid; for CE/BCE/KL: random-interior, one-hot-target, boundary-grid {0,1,1e-6,1-1e-6,denormals,..}, equal-pairs, exact-zeros-and-ones, distributions. Every case: loss vs documented formula (running f32 error bound), loss finite, gradient vs documented formula (1e-5 relative), gradient shape == prediction shape, a clamp interval applied (symmetric, narrow, degenerate, half-line [0,MAX], random, one-sided with an infinite bound, (-inf,inf)): loss unchanged and gradient == unclamped gradient limited to the interval bit-for-bit; interior cases of AE/MSE/BCE/KL additionally: gradient == dual-number derivative of the documented loss and ~ central difference of the library's own loss(). grid: full product of boundary values for vectors of length <= 3. Distinct = distinct (objective, family, shape, data hash)."
     }
     fn assumptions(&self) -> Vec<&'static str> {
         vec![
